@@ -117,6 +117,10 @@ pub struct Profile {
     /// a quarter of the ordinary transactions take, as their first input, a *non-first* output of a staking transaction
     /// (one accepted earlier or one built earlier in the same batch) when the wallet holds one
     pub prefer_stake_change: bool,
+    /// a third of the histories that start past the legacy heights start a few blocks below 900 000 instead (stake
+    /// documents are registered from 500 000 on, the lock is enforced from 900 000 on): stakes made in that window
+    /// are carried across the switch
+    pub stake_window_start: bool,
     /// half of the mainnet/testnet histories start above the legacy heights (979 000), like `start_past_legacy`
     pub past_legacy_half: bool,
     /// number of small MEL coins in the seed funds (each withdrawal burns one as its fee)
@@ -159,6 +163,7 @@ impl Profile {
             start_past_legacy: false,
             prefer_staked: false,
             prefer_stake_change: false,
+            stake_window_start: false,
             past_legacy_half: false,
             nuggets: 4,
             grandfathered_faucet: false,
@@ -1787,11 +1792,13 @@ pub fn run_plan(plan: &Plan, profile: &Profile, mon: &mut dyn Monitor, st: &mut 
                 _ => return Ok(()),
             }
         }
-        if !teleport(&mut w, 979_000, st) {
+        let in_window = profile.stake_window_start && plan.cfg.val % 3 == 0;
+        let target = if in_window { 899_992 + (plan.cfg.val as u64 % 7) } else { 979_000 };
+        if !teleport(&mut w, target, st) {
             return Ok(());
         }
         snap = w.snap();
-        st.class("started-past-legacy-heights");
+        st.class(if in_window { "started-just-below-the-lock-switch-at-900000" } else { "started-past-legacy-heights" });
     }
     if profile.start_in_legacy_window && w.net == NetID::Mainnet {
         let target = [179_999u64, 180_001, 199_999, 400_000, 499_999, 829_990][plan.cfg.val as usize % 6];
